@@ -2,6 +2,7 @@ package props
 
 import (
 	"gbverif/cmpchain"
+	"os"
 	"strings"
 	"golang.org/x/tools/go/ssa"
 	"fmt"
@@ -294,6 +295,25 @@ func init() {
 				}
 				sort.Strings(missing)
 				fmt.Printf("%s over %s: cases=%d default=%v universe=%d missing=%s\n", ir.FuncKey(fn), in.Obj().Name(), len(set), set[nil], len(uni[in]), joinShort(missing, 30))
+			}
+		}
+	}
+}
+
+func init() {
+	// held: VERIF_FN="key1,key2" — must-held set at every call site of the listed functions.
+	debugHooks["held"] = func(p *ir.Program) {
+		c := &Ctx{P: p, R: report.New("DBG", "quick")}
+		a := c.lockAnalysis()
+		for _, k := range strings.Split(os.Getenv("VERIF_FN"), ",") {
+			fn := p.Func(k)
+			if fn == nil {
+				fmt.Println("not found", k)
+				continue
+			}
+			for _, e := range a.In[fn] {
+				_, must, reached := a.At(e.Site)
+				fmt.Printf("%s <- %s %s must=%s reached=%v async=%v\n", fn.Name(), ir.FuncKey(e.Caller), p.InstrPos(e.Site), must, reached, e.Async)
 			}
 		}
 	}
